@@ -11,6 +11,10 @@ type SoftCollection struct {
 // SetType sets the collection's type.
 func (s *SoftCollection) SetType(typ *Type) {
 	s.Type = typ
+
+	for i := range s.col {
+		s.col[i].SetType(typ)
+	}
 }
 
 // GetType returns the collection's type.
